@@ -1667,6 +1667,10 @@ int ov_pcm_seek_page(OggVorbis_File *vf,ogg_int64_t pos){
               return ov_raw_seek(vf,result);
             }
           }
+          /* rewound to the beginning of the link's data without
+             finding where the packet began: broken stream */
+          result=OV_EBADLINK;
+          goto seek_error;
         }
         if(result<0){
           result = OV_EBADPACKET;
